@@ -115,8 +115,10 @@ def install_trajectory_env(ctx, log, repo):
     im["mdtraj.formats"] = Namespace("mdtraj.formats", **stubs)
     im["functools"] = __import__("functools")
     im["copy"] = Namespace("copy", deepcopy=lambda x: deepcopy_model(x), copy=lambda x: x)
+    import os as _os
     os_ns = Namespace("os", fspath=lambda p: p, path=Namespace("os.path", exists=lambda p: SBool(z3.Bool("exists")),
-                                                              isfile=lambda p: True))
+                                                              isfile=lambda p: True, splitext=_os.path.splitext,
+                                                              basename=_os.path.basename))
     os_ns._attrs["PathLike"] = type("PathLike", (), {})
     im["os"] = os_ns
     # unit-cell conversions are under contract in C17; at call sites they are uninterpreted functions of their arguments
